@@ -1,13 +1,13 @@
 SPECIFICATION Spec
 CONSTANTS
-  Objs = {"ri", "vd"}
-  Names = {"a", "ab"}
-  Types = {"i16", "c8"}
-  Counts = {1, 2, 65535}
-  DimNames = {"x"}
+  Objs = {"d10", "d20", "d21"}
+  Names = {"a"}
+  Types = {"c8"}
+  Counts = {2}
+  DimNames = {"x", "y"}
   ScaleTypes = {"i16"}
   MaxAttrs = 2
-  MaxAdd = 1
+  MaxAdd = 0
   DataMod = 2
   MaxOps = 100
   KeepHist = FALSE
